@@ -94,6 +94,42 @@ impl HK for Multiboot2BasicHeader {
     }
 }
 
+// user-defined header kinds whose size is not 8 or 16 (the generic code must not assume the in-tree sizes)
+macro_rules! custom_header {
+    ($name:ident, $label:expr, $hdr:expr, $size_off:expr, { $($field:ident : $t:ty),* }) => {
+        #[derive(Clone, PartialEq, Eq, Debug)]
+        #[repr(C)]
+        struct $name { $($field: $t),* }
+        impl Header for $name {
+            fn payload_len(&self) -> usize {
+                (self.size as usize).saturating_sub(std::mem::size_of::<Self>())
+            }
+            fn total_size(&self) -> usize {
+                self.size as usize
+            }
+            fn set_size(&mut self, total_size: usize) {
+                self.size = total_size as u32;
+            }
+        }
+        impl HK for $name {
+            const NAME: &'static str = $label;
+            const HDR: usize = $hdr;
+            const SIZE_OFF: usize = $size_off;
+            fn template() -> [u8; 16] {
+                let mut t = [0u8; 16];
+                for (i, b) in t.iter_mut().enumerate() {
+                    *b = 0xC0 | i as u8;
+                }
+                t
+            }
+        }
+    };
+}
+custom_header!(H4, "user header of 4 bytes", 4, 0, { size: u32 });
+custom_header!(H12, "user header of 12 bytes", 12, 4, { a: u32, size: u32, b: u32 });
+// 16 bytes is the limit of the template; a 16-byte user header with the size word last
+custom_header!(H16, "user header of 16 bytes (size word last)", 16, 12, { a: u32, b: u32, c: u32, size: u32 });
+
 fn err_name(e: MemoryError) -> &'static str {
     match e {
         MemoryError::Null => "Null",
@@ -410,7 +446,7 @@ fn run(ctx: &mut Ctx) {
     let arena = Arena::new(2);
     let max_len = if ctx.quick() { 48 } else { 128 };
     ctx.bound("slices", format!("slice lengths 0..={} x start alignments 0..7 x declared sizes 0..={} + EDGE32, per header kind; slices end at most 7 bytes before a PROT_NONE guard page (0 bytes for every accepted slice); each leaf executed under fill A and fill B", max_len, max_len + 24));
-    ctx.bound("header_kinds", "DummyTestHeader, TagHeader (types 0x1337, 0 = end, 1, 3, 21, 0xFFFFFFFF), BootInformationHeader, HeaderTagHeader (types 5, 0 = end, 1, 10 x both flags), Multiboot2BasicHeader (both architectures); the first variant of each with the full slice range, the others with slices up to 40 bytes");
+    ctx.bound("header_kinds", "DummyTestHeader, TagHeader (types 0x1337, 0 = end, 1, 3, 21, 0xFFFFFFFF), BootInformationHeader, HeaderTagHeader (types 5, 0 = end, 1, 10 x both flags), Multiboot2BasicHeader (both architectures), three user-defined header kinds of 4, 12 and 16 bytes (slices up to 64 bytes); the first variant of each with the full slice range, the others with slices up to 40 bytes");
     if !ctx.uniform() {
         // the test-utility header is not part of decoding Multiboot2 data: left out of cross-configuration runs
         run_kind::<DummyTestHeader>(ctx, &arena, max_len);
@@ -419,6 +455,11 @@ fn run(ctx: &mut Ctx) {
     run_kind::<BootInformationHeader>(ctx, &arena, max_len);
     run_kind::<HeaderTagHeader>(ctx, &arena, max_len);
     run_kind::<Multiboot2BasicHeader>(ctx, &arena, max_len);
+    if !ctx.uniform() {
+        run_kind::<H4>(ctx, &arena, max_len.min(64));
+        run_kind::<H12>(ctx, &arena, max_len.min(64));
+        run_kind::<H16>(ctx, &arena, max_len.min(64));
+    }
     let bases: Vec<usize> = if ctx.quick() { vec![4096, 32768, 65536, 1 << 20] } else { vec![256, 4096, 8192, 32768, 65536, 1 << 20, 1 << 24] };
     ctx.bound("large_slices", format!("per header kind: slice lengths L + {{0, -8, 8, 16, -16}} x declared sizes L + {{0, -8, 8, 1, -3, 16, -16, 4096, -4096}} (11 combinations) for L in {:?}; slice flush against the guard page", bases));
     let big = Arena::new_sparse((*bases.last().unwrap() + 65536) / 4096);
